@@ -67,11 +67,18 @@ def near_miss_words():
         ws += [c | PAIR, c | TRIPS, c | QUADS, c | PAIR | TRIPS | QUADS]
     ws += list(range(0, 65))
     ws += [0xFFFFFFFF, 0xFFFFFFFE, 0x80000000, 0x7FFFFFFF, 0x1FFF0000, 0xF000, 0x3F]
-    # inconsistent fields: rank bit of one rank with number/prime of another
-    for r in range(13):
-        for r2 in (0, 5, 12):
-            if r != r2:
-                ws.append((1 << (16 + r)) | 0x8000 | (r2 << 8) | PRIMES[r2])
+    # inconsistent fields: every (rank bit r1, rank number r2, prime r3) that is not one rank, with every single suit bit:
+    # each field is well-formed on its own, only the cross-check between them fails (13^3 - 13 = 2184 mixes x 4 suits)
+    for r1 in range(13):
+        for r2 in range(13):
+            for r3 in range(13):
+                if not (r1 == r2 == r3):
+                    for s_ in range(4):
+                        ws.append((1 << (16 + r1)) | (0x1000 << s_) | (r2 << 8) | PRIMES[r3])
+    # rank numbers 13..15 (outside the 13 ranks) under every suit bit, with and without a rank bit
+    for n_ in (13, 14, 15):
+        for s_ in range(4):
+            ws += [(0x1000 << s_) | (n_ << 8), (1 << 28) | (0x1000 << s_) | (n_ << 8) | 41, (1 << (16 + n_)) | (0x1000 << s_) | (n_ << 8)]
     # two suit bits / no suit bit
     for c in DECK[:13]:
         ws.append(c | 0x4000)
@@ -310,10 +317,17 @@ def c05_families(rng, tier):
             "Five::find_in_products on every product of five rank primes and each +-1 (every key class a comparison search "
             "can distinguish), the extremes of usize, seeded usize of every magnitude",
             categories={"product_classes": len(keys), "random_usize": len(rnd)}, profiles=["release", "chk"], pinned=True),
-        fam_cmd("five_multisets", ["multisets", "--k", "5", "--op", "rankp 5"],
-                "ALL 4,187,106 five-slot multisets over {52 cards, blank}: every ranking entry point returns normally; "
-                "a hand with a blank gets value 0 / Invalid", profiles=["release", "chk"], pinned=True),
     ]
+    if tier == "thorough":
+        fams.append(fam_cmd("five_multisets", ["multisets", "--k", "5", "--op", "rankp 5"],
+                            "ALL 4,187,106 five-slot multisets over {52 cards, blank} on model and implementation: every ranking entry point "
+                            "returns normally; a hand with a blank gets value 0 / Invalid", profiles=["release", "chk"], pinned=True))
+    sw5 = sweeps(rng, tier, lambda k: "rankp %d" % k, "ok ok ok ok ok ok", "C05_projection + C05_blank_five",
+                 "every ranking entry point returns normally; a hand holding a blank gets value 0 / Invalid (constant read off the model)",
+                 sizes=(5,), alphabet="deckblank", name="rankp_multisets", quick_strides={5: (1, 1, 1)}, blank_case="rankp 5 0 0 0 0 0")
+    for f in sw5:
+        f["profiles"] = ["release", "chk"]
+    fams += sw5
     n = 100000 if tier == "quick" else 1000000
     for k in (5, 6, 7):
         lines, cats = [], {"with_blank": 0, "with_repeat": 0, "all_distinct_cards": 0}
@@ -330,15 +344,18 @@ def c05_families(rng, tier):
         fams.append(fam("slots%d_card_or_blank" % k, lines,
                         "seeded %d-slot arrays over {52 cards, blank} in random order with repetition (blank density 0/10/40/90%%), "
                         "plus the all-blank default hand" % k, categories=cats, profiles=["release", "chk"], pinned=True))
-    fams += sweeps(rng, tier, lambda k: "rankp %d" % k, "ok ok ok ok ok", "C05_projection",
-                   "every ranking entry point returns normally", alphabet="deckblank", name="rankp_multisets",
-                   quick_strides={6: (4, 16, 16), 7: (128, 512, 512)}, thorough_stride={7: 4})
+    sw = sweeps(rng, tier, lambda k: "rankp %d" % k, "ok ok ok ok ok", "C05_projection",
+                "every ranking entry point returns normally", alphabet="deckblank", name="rankp_multisets",
+                quick_strides={6: (4, 16, 16), 7: (128, 512, 512)}, thorough_stride={7: 4})
+    for f in sw:
+        f["profiles"] = ["release", "chk"]     # the property is about every build profile
+    fams += sw
     st = 32 if tier == "quick" else 1
     fams.append(fam_sweep("five_ordered_arrays", "rankp 5", 5, 0, "ok ok ok ok ok ok", "C05_projection + C05_blank_five",
                           "ALL 53^5 = 418,195,493 ORDERED five-slot arrays over {52 cards, blank}%s: every entry point returns normally; an "
                           "array holding a blank gets value 0 / Invalid (that constant is read off the model on the all-blank hand)"
                           % ("" if st == 1 else " (1 of every %d, seeded offset)" % st), stride=st, offset=rng.below(st),
-                          alphabet="deckblank_ordered", profiles=["release"] if tier == "quick" else ["release", "chk"],
+                          alphabet="deckblank_ordered", profiles=["release", "chk"],
                           blank_case="rankp 5 0 0 0 0 0"))
     if tier == "thorough":
         fams.append(fam_cmd("six_multisets_slice", ["multisets", "--k", "6", "--op", "rankp 6", "--stride", "8", "--offset", str(rng.below(8))],
@@ -442,7 +459,7 @@ def six_seven_families(rng, tier, op, what, pinned=True):
 
 
 def sweeps(rng, tier, op_of, expect, theorem, what, sizes=(6, 7), quick_strides=None, alphabet="deck", name="sweep",
-           thorough_stride=None):
+           thorough_stride=None, blank_case=None):
     """exhaustive implementation-only sweeps of a constant projection over all k-card hands in several slot orders:
     shuffled (order 2), descending numeric = what sort() produces (3), deck order (0), and in the thorough tier also
     reversed (1) and ascending (4), the shuffled order in the overflow-checked profile as well. Quick tier: a 1/stride
@@ -462,7 +479,7 @@ def sweeps(rng, tier, op_of, expect, theorem, what, sizes=(6, 7), quick_strides=
                                  "%s%s, %s: %s (implementation-only: the model's line is constant by the theorem)" %
                                  (dom, "" if stride == 1 else " (1 of every %d, seeded offset)" % stride, oname, what),
                                  seed=seed, stride=stride, offset=rng.below(stride) if stride > 1 else 0, alphabet=alphabet,
-                                 profiles=profs))
+                                 profiles=profs, blank_case=blank_case))
     return out
 
 
@@ -573,6 +590,27 @@ def c04_families(rng, tier):
         for _ in range(300):
             garb.append(line("vrank %d" % n, [(rng.next() & 0xFFFFFFFF) | 0x8000 for _ in range(n)]))
             garb.append(line("vrank %d" % n, [rng.next() & 0xFFFFFFFF for _ in range(n)]))
+    # words with SEVERAL rank bits: the OR of the rank bits of the hand reaches the values just past the end of the 7,937-entry
+    # tables (7937..8191) and other dense patterns, in mixed suits (the non-flush lookup) and in one suit (the flush lookup)
+    for n in (5, 6, 7):
+        for tgt in list(range(7936, 8192, 1 if n == 5 else 5)) + [0x1F01, 0x1FFF, 0x1F1F, 0x1E01]:
+            bits = [b_ for b_ in range(13) if tgt >> b_ & 1]
+            top = bits[-4:] if len(bits) >= 4 else bits
+            rest = [b_ for b_ in bits if b_ not in top]
+            for suited in (False, True):
+                h = []
+                for j, b_ in enumerate(top):
+                    h.append(layout(b_, 3 if suited else j % 4))
+                multi = layout(top[0], 3 if suited else 1)
+                for b_ in rest:
+                    multi |= 1 << (16 + b_)
+                h.append(multi)
+                while len(h) < n:
+                    h.append(layout(len(h), 3 if suited else 2) if len(h) not in top else layout(0, 0))
+                h = h[:n]
+                if rng.below(2):
+                    h.reverse()
+                garb.append(line("vrank %d" % n, h))
     fams.append(fam("flush_like_garbage", garb, "sizes 5..7: one-suit hands with one slot flagged (pair/trips/quads) or replaced by a word with "
                     "all rank bits set, all-garbage hands sharing a suit bit, random u32 hands: words for which UNVALIDATED ranking would index "
                     "out of range, so validated ranking must return 0 before looking anything up", profiles=["release", "chk"], pinned=True))
@@ -615,6 +653,24 @@ BOUNDARY = [0, 1, 2, 9, 10, 11, 12, 22, 23, 165, 166, 167, 168, 321, 322, 323, 3
             16383, 16384, 32767, 32768, 32769, 65534, 65535]
 
 
+def dup_or_blank_hand(rng, k):
+    h = rand_hand(rng, k)
+    m = rng.below(3)
+    if m == 0:
+        h[rng.below(k)] = 0
+    elif m == 1:
+        a, b = rng.below(k), rng.below(k)
+        if a == b:
+            b = (a + 1) % k
+        h[b] = h[a]
+    else:
+        h[rng.below(k)] = 0
+        a, b = rng.below(k), rng.below(k)
+        if a != b:
+            h[b] = h[a]
+    return h
+
+
 def c06_families(rng, tier):
     n5 = 50000 if tier == "quick" else 500000
     sh, cats = shuffled_fives(rng, n5, "hrank 5")
@@ -625,6 +681,9 @@ def c06_families(rng, tier):
         fam("hands_rank", sh + structured_fives(rng, "hrank 5") + made_hands(rng, 6, 3000, "hrank 6") + made_hands(rng, 7, 3000, "hrank 7"),
             "hand_rank() / hand_rank_validated() (value, name, class) of seeded and structured five-, six- and seven-card hands",
             categories=cats, pinned=True),
+        fam("invalid_hands_rank", [line("hrank %d" % (5 + j % 3), dup_or_blank_hand(rng, 5 + j % 3)) for j in range(3000)],
+            "five-, six- and seven-slot hands holding a blank or a repeated card in a random slot (inside or outside the best five): "
+            "hand_rank_validated() is the Invalid rank of value 0; hand_rank() carries hand_rank_value()", pinned=True),
         fam("hrself_projection", [line("hrself %d" % (5 + j % 3), rand_hand(rng, 5 + j % 3)) for j in range(900)],
             "the projection the sweeps use, on model and implementation", pinned=True),
     ] + sweeps(rng, tier, lambda k: "hrself %d" % k, "1 1 1", "C06_projection",
